@@ -268,6 +268,18 @@ func propC08(c *Ctx) {
 			runFnCase(c, m, randCaseName(c, f), args)
 		}
 	}
+	// every one-argument numeric function on every numeric boundary value (ties, half-ulp neighbours, signed
+	// zeros, 2^52..2^53, extremes), both managers
+	for _, f := range []string{"Abs", "Ceil", "Ceiling", "Floor", "Round", "Trunc", "Truncate", "Sqr", "Sqrt", "Exp", "Log", "Ln", "Log10", "Sin", "Cos", "Tan", "Asin", "Acos", "Atan"} {
+		for _, tn := range []string{"int", "long", "float", "double"} {
+			for _, v := range pool[tn] {
+				runFnCase(c, "u", f, []*variants.Variant{v})
+				if tn == "double" || tn == "float" {
+					runFnCase(c, "s", f, []*variants.Variant{v})
+				}
+			}
+		}
+	}
 	runFnCase(c, "u", "nosuchfunction", nil)
 	runFnCase(c, "u", "sın", []*variants.Variant{vInt(1)}) // dotless i upper-cases to I
 	c.Notes = append(c.Notes, fmt.Sprintf("37 registered names in random letter case x %d argument lists each (valid arities 3/4 of the time, otherwise 0..8 arguments) from the boundary pool of 10 types, both managers; clock/random checked against the call interval / [0,1); transcendental functions checked against Go's math on the converted argument; Min/Max/Sum against the left fold", reps))
